@@ -277,6 +277,12 @@ func c03(c *core.Ctx) {
 		c.EndRule()
 	}
 
+	// ---------------------------------------------------------------- R9
+	if c.Rule("R9", "a call that reports success has delivered the trailers: the in-process sender abandons its final frames (trailers included) once the context is done, so the receive functions may turn a closed channel into success only under a context re-check made after the receive (obligations shared with C02/R1)", 2) {
+		c02InprocRecheck(c)
+		c.EndRule()
+	}
+
 	// ---------------------------------------------------------------- R7
 	if c.Rule("R7", "what the handler sets is taken at the call: no SetHeader/SendHeader/SetTrailer/TrySetTrailer implementation keeps the handler's metadata.MD (or one of its value slices) by reference; it only reads it (range, append of the elements, converters, copies) or forwards it to the wrapped stream", 10) {
 		n := 0
